@@ -826,6 +826,8 @@ func c04(c *Ctx) (*report.Result, error) {
 	} else if err != nil {
 		res.Undec("O4.15", "keep-alive obligations of O3.4", "", err.Error())
 	}
+	res.RuleDoc["O4.19"] = "a target's entry in the acknowledgement table outlives its stream: during a receiver incarnation no entry of ackByTarget is deleted or cleared and the table is replaced by Run's fresh map only - the entry is what keeps tasks handed to that target (on its broken stream, or waiting for it to register) below the aggregated minimum, so removing it on re-registration lets another target's next ack acknowledge them"
+	checkAckTableNeverShrinks(c, res, "O4.19")
 	res.RuleDoc["O4.18"] = "a resumed source stream is not acknowledged past what it has re-delivered: the aggregated minimum is capped by the exclusive high watermark of the last batch this receiver incarnation has read (the clamp obligations of O3.2, imported) - after a source-stream reconnection the new receiver starts with an empty per-target table while the senders still report levels from the old stream; without the cap the ack jumps past tasks that are outstanding on a target the new receiver has not heard from, and a break of that target's stream loses them"
 	if r3, err := Registry["C03"](c); err == nil && r3 != nil {
 		if n := importObligations(res, r3, "O4.18", func(o report.Obligation) bool { return o.Rule == "O3.2" }); n < 2 {
